@@ -5,6 +5,8 @@ OUTSIDE = ('that the real SILK/CELT frame encoders respect their byte budget; fi
            'FUZZING build; RTCD levels; the opus_encode_native glue (contract-stub harness of the design was not built in this round)')
 TAB = ['silk/tables_NLSF_CB_NB_MB.c', 'silk/tables_NLSF_CB_WB.c', 'silk/tables_other.c', 'silk/tables_gain.c', 'silk/tables_pitch_lag.c', 'silk/tables_LTP.c', 'silk/tables_pulses_per_block.c']
 
+import os, importlib.util
+_s = importlib.util.spec_from_file_location('vt_glue', os.path.join(VERIF, 'props', '_glue.py')); _g = importlib.util.module_from_spec(_s); _s.loader.exec_module(_g)
 def obligations():
     L = []
     conds = ['CODE_INDEPENDENTLY', 'CODE_INDEPENDENTLY_NO_LTP_SCALING', 'CODE_CONDITIONALLY']
@@ -20,4 +22,8 @@ def obligations():
                             stubs=['ec_enc_icdf/ec_dec_icdf: tape coder']))
     L.append(Ob('H2.gen_toc', 'C02_toc.c', ['src/opus.c', 'src/opus_decoder.c'], [], unwind=1, unwindset=['gen_toc:9'], functions=['gen_toc', 'opus_packet_get_bandwidth'], budget=300,
                 bounds='every legal (mode, duration 2.5..60 ms, bandwidth, channels, Fs) combination'))
+    for fsi, dur in [(0, 6), (4, 3), (2, 8), (1, 5)]:
+        L.append(_g.glue_ob(Ob, 'H3.glue', fsi, dur, 'quick'))
+    for fsi, dur in [(f, d) for f in range(5) for d in range(9) if (f, d) not in [(0, 6), (4, 3), (2, 8), (1, 5)]][::4]:
+        L.append(_g.glue_ob(Ob, 'H3.glue', fsi, dur, 'thorough'))
     return L
